@@ -30,6 +30,7 @@ type Contract struct {
 	Ensures  []*Clause
 	Modifies []string
 	Sweep    []string // properties that claim the safe:* obligations of this function
+	PrunePaths bool
 	Modular  bool     // callers use the contract instead of inlining the body
 	Trusted  bool     // contract assumed, body not verified (must be justified in DESIGN.md; listed in evidence)
 	Params   []string // optional names for parameters/results used by the clauses: "params(a,b) results(r,err)"
@@ -79,7 +80,7 @@ type SpecDB struct {
 }
 
 var clauseKeywords = map[string]bool{"func": true, "loop": true, "requires": true, "ensures": true, "modifies": true,
-	"sweep": true, "modular": true, "trusted": true, "invariant": true, "pure": true, "unroll": true, "names": true, "let": true, "end": true, "sums": true, "demands": true, "covers": true, "promote": true, "hint": true, "lemma": true}
+	"sweep": true, "modular": true, "trusted": true, "invariant": true, "pure": true, "unroll": true, "names": true, "let": true, "end": true, "sums": true, "demands": true, "covers": true, "promote": true, "hint": true, "lemma": true, "prunepaths": true}
 
 func ParseSpecs(lines []SpecLine) *SpecDB {
 	db := &SpecDB{Contracts: map[string]*Contract{}, Pures: map[string]*PureDef{}}
@@ -208,6 +209,10 @@ func ParseSpecs(lines []SpecLine) *SpecDB {
 			cur.Sweep = append(cur.Sweep, parseProps(it.rest)...)
 		case "sums":
 			cur.Sums = true
+		case "prunepaths":
+			// ask the solver whether a path is feasible when it reaches a loop with invariants; infeasible paths are dropped (sound:
+			// an unsatisfiable path condition has no executions). Used where preconditions rule out most syntactic paths.
+			cur.PrunePaths = true
 		case "covers":
 			cur.Covers = append(cur.Covers, parseProps(it.rest)...)
 		case "promote":
